@@ -49,6 +49,7 @@ def default_params():
         gets="early",               # deferred API: when get_*() are requested: early | late | tape | after (closed)
         third=None,                 # None | "before" | "after": a raw third client claims the nameplate
         hs_fail=[0, 0],             # budget of reconnections whose WebSocket negotiation fails
+        hs_fail_first=[False, False],   # the first connection's WebSocket negotiation may fail (a scheduler event)
         hs_slow=[False, False],     # TCP connection and WebSocket negotiation are separate scheduler events
         extra_msg_gets=0,           # deferred API: additional concurrently outstanding get_message() chains
         w_progress=10, w_app=6, w_drop=1, w_adv=2,
@@ -287,6 +288,7 @@ def _run(P, rec, W, tape, on_step, setup, at_stable, adversary=None, on_idle=Non
         w._sim_svc.refuse = P["refuse"][i]
         w._sim_svc.hs_fail = P["hs_fail"][i]
         w._sim_svc.hs_slow = P["hs_slow"][i]
+        w._sim_svc.hs_fail_first = P["hs_fail_first"][i]
         ws.append(w)
         _install_trace(rec, i, w)
     def on_deliver(c, payload):
